@@ -101,6 +101,9 @@ def gen_ref(rng, k, kind, big=False):
         if rng.random() < 0.3 and L > k:
             i = rng.randrange(L)
             s = s[:i] + 'N' * rng.randint(1, 3) + s[i + 1:]
+        if rng.random() < 0.15 and len(s) > k + 1:
+            i = len(s) - k - 1                     # exactly k bases follow the N
+            s = s[:i] + 'N' + s[i + 1:]
         if rng.random() < 0.35 and contigs:
             c0 = contigs[rng.randrange(len(contigs))].upper()
             if len(c0) >= k:
